@@ -83,6 +83,8 @@ def run(ctx, rep):
                            fn="bytecode::variables::ops", key=key)
     rep.floor("C05.promotion cells", n, 200)
 
+    operator_reaches_the_interpreter(F, rep)
+
     # ---- (b) -------------------------------------------------------------------------------------------
     zero = {"Int": Int(0, "i32"), "BigInt": Int(0, "i128"), "Byte": Int(0, "u8"), "Float": Flt(0.0)}
     for sym, opn in (("/", "Div"), ("%", "Rem")):
@@ -367,3 +369,54 @@ def equality_route(F, rep, rule="C05.equality-route"):
         rep.ob(rule, "no operation of the interpreter compares program values with the derived (structural) PartialEq", "ok", "%d call sites inspected" % n, None,
                key=rule + "|structural")
     rep.floor(rule + " call sites inspected", n, 2000)
+
+
+def _opaque_call(it, p, fid, fn, t, args):
+    return __import__("absint").Opaque("typing")
+
+
+# what the type checker says about an operand is an input of the generator, not something to inline: both answers are explored
+OPAQUE_TYPING = {"compiler::ast::math_expr::Expr::for_type": _opaque_call, "compiler::ast::value::Value::for_type": _opaque_call,
+                 "compiler::ast::r#type::IntoType::for_type": _opaque_call, "compiler::ast::r#type::IntoType::for_type_force_mixed": _opaque_call,
+                 "compiler::ast::r#type::TypeLayout::is_numeric": _opaque_call}
+
+
+def operator_reaches_the_interpreter(F, rep, rule="C05.operator-applied"):
+    """The promoted kind and the failure cases of `a op b` are those of the interpreter's operator implementation (the tables above).  They
+    only hold for the program if the operator *is applied*: the code of a binary operator expression that is not a compile-time constant
+    (constants are C06's clause) contains, on every path of the generator, the instruction that applies it (bin_op / equ / neq) exactly once,
+    after both operands.  A generator path that emits an operand alone - an "identity" shortcut such as `x + 0 => x` - keeps the kind of that
+    operand (`byte + 0` stays a byte, where the table says int) and skips the operator's checks."""
+    import seqgen
+    from absint import Variant, Opaque
+    EXPR = "compiler::ast::math_expr::Expr"
+    OP = "compiler::ast::math_expr::Op"
+    ea, oa = F.adt(EXPR), F.adt(OP)
+    cd = F.fn("compiler::ast::math_expr::compile_depth")
+    if ea is None or oa is None or cd is None:
+        raise AnchorMissing("Expr / Op / compile_depth")
+    en = [v["name"] for v in ea["variants"]]
+    on = [v["name"] for v in oa["variants"]]
+    APPLY = ("bin_op", "equ", "neq", "bin_op_assign", "unwrap_into")
+    n = 0
+    for op in on:
+        node = Variant(EXPR, en.index("BinOp"), "BinOp", [Opaque("lhs"), Variant(OP, on.index(op), op, []), Opaque("rhs")])
+        rows, ex = seqgen.sequences(F, cd, [node, Opaque("state"), Opaque("depth")], extra_models=OPAQUE_TYPING)
+        seqs = [r["seq"] for r in rows if r["seq"] is not None]
+        key = "%s|%s" % (rule, op)
+        if ex or not seqs:
+            rep.ob(rule, "`a %s b`: the emitted code applies the operator" % op, "undecided", "no sequence read (exhausted=%s)" % ex, cd.span, fn=cd.path, key=key)
+            continue
+        n += 1
+        bad = []
+        for sq in seqs:
+            k = [i for i, x in enumerate(sq) if x[0] == "ins" and x[1] in APPLY]
+            last_code = max([i for i, x in enumerate(sq) if x[0] == "code"] or [-1])
+            shown = " ".join(("<%s>" % x[1].split(".")[0]) if x[0] == "code" else x[1] for x in sq)
+            if len(k) != 1:
+                bad.append("`%s` applies the operator %d times" % (shown, len(k)))
+            elif k[0] < last_code:
+                bad.append("`%s` applies the operator before an operand has run" % shown)
+        rep.ob(rule, "`a %s b`: every path of the generator lays down the instruction that applies the operator, once, after the operands" % op,
+               "violated" if bad else "ok", "; ".join(sorted(set(bad))[:3]) if bad else "", cd.span, fn=cd.path, key=key)
+    rep.floor(rule + " operators judged", n, 20)
